@@ -429,7 +429,9 @@ class MarkovNetwork(UndirectedGraph):
             order = []
 
             cardinalities = self.get_cardinality()
-            for index in range(self.number_of_nodes()):
+            # Isolated nodes never create fill-in edges, hence only the nodes of
+            # `graph_copy` (which is built from the edges) need to be ordered.
+            for index in range(graph_copy.number_of_nodes()):
                 # S represents the size of clique created by deleting the
                 # node from the graph
                 S = {}
@@ -477,6 +479,7 @@ class MarkovNetwork(UndirectedGraph):
                 order.append(node_to_delete)
 
         graph_copy = nx.Graph(self.edges())
+        graph_copy.add_nodes_from(self.nodes())
         for node in order:
             for edge in itertools.combinations(graph_copy.neighbors(node), 2):
                 graph_copy.add_edge(edge[0], edge[1])
@@ -490,6 +493,7 @@ class MarkovNetwork(UndirectedGraph):
 
         else:
             graph_copy = MarkovNetwork(self.edges())
+            graph_copy.add_nodes_from(self.nodes())
             for edge in edge_set:
                 graph_copy.add_edge(edge[0], edge[1])
             return graph_copy
